@@ -68,7 +68,6 @@ WIDE_SIZES = [7, 8, 9, 15, 16, 17, 31, 32, 33]
 #   like a theory function (and), like the printer's auxiliary let names (.def_0), needing quotes (a b);
 #   symbols named like sorts, like sort symbols of the theories (Int), like auxiliary names, needing quotes.
 SORTS = ["S", "T", "b0", "p1", "u0", "e0", "and", ".def_0", "a b"]
-SORT_ID = {n: k for k, n in enumerate(SORTS)}
 SORT_ELEMS = {"S": ["es0", "es1"], "T": ["et0", "et1"], "b0": ["eb0", "eb1"], "p1": ["ep0", "ep1"], "u0": ["eu0", "eu1"],
               "e0": ["e0", "e1"], "and": ["ea0", "ea1"], ".def_0": ["ed0", "ed1"], "a b": ["eq0", "eq1"]}
 for _sn in SORTS:
@@ -79,6 +78,9 @@ POOL += ODD_SYMS
 SYM_ID = {n: k for k, (n, _) in enumerate(POOL)}
 SYM_SORT = dict(POOL)
 assert len(SYM_SORT) == len(POOL)
+# in the Coq model sorts and symbols are numbered in separate name spaces; a sort gets the number
+# of the symbol with the same name, if there is one
+SORT_ID = {n: SYM_ID.get(n, 1000 + k) for k, n in enumerate(SORTS)}
 
 
 def is_usort(sort):
@@ -241,7 +243,15 @@ def gen_term(rnd, sort, pool, depth):
             kinds += ["le", "lt", "eq"] * 2
         if any(SYM_SORT[n] == "BV" for n in pool):
             kinds += ["bveq", "bvult", "bvule", "bvslt"] * 2
+        upairs = [(a, b) for a in pool for b in pool if a < b and is_usort(SYM_SORT[a]) and SYM_SORT[a] == SYM_SORT[b]]
+        if upairs:
+            kinds += ["ueq"] * 4
         k = rnd.choice(kinds)
+        if k == "ueq":
+            a, b = rnd.choice(upairs)
+            if rnd.random() < 0.3:
+                return ("ueq", ("uite", gen_term(rnd, "Bool", pool, d), ("var", a), ("var", b)), ("var", rnd.choice([a, b])))
+            return ("ueq", ("var", a), ("var", b))
         if k == "not":
             return ("not", gen_term(rnd, "Bool", pool, d))
         if k == "ite":
@@ -283,6 +293,9 @@ def wide_literal(rnd, n, anchor):
     enumeration order (false / #b000 / -4) shared by the reference solver and the harness."""
     so = SYM_SORT[n]
     v = ("var", n)
+    if is_usort(so):        # an equation with the other element of the sort (holds at first: both @0)
+        other = [m for m in SORT_ELEMS[so[2:]] if m != n][0]
+        return ("ueq", v, ("var", other)) if (anchor or rnd.random() < 0.5) else ("not", ("ueq", v, ("var", other)))
     if so == "Bool":
         return ("not", v) if (anchor or rnd.random() < 0.5) else v
     if so == "BV":
@@ -379,7 +392,7 @@ def _make_symfun():
     def f(ast):
         key = repr(ast)
         if key not in cache:
-            cache[key] = frozenset(str(x) for x in to_pysmt(ast, env.formula_manager, types).simplify().get_free_variables())
+            cache[key] = frozenset(x.symbol_name() for x in to_pysmt(ast, env.formula_manager, types).simplify().get_free_variables())
         return cache[key]
     return f
 
@@ -526,9 +539,11 @@ def admissible(h):
     return True
 
 
-def random_history(rnd, cls, wide=False):
+def random_history(rnd, cls, wide=False, names=False):
     """cls: 'fragment' | 'values' | 'modeldepth' | 'multi' | 'reset' | 'mixed' | 'valuefree'.
-    wide: symbols from the large pool, formulas with up to 33 distinct free symbols."""
+    wide: symbols from the large pool, formulas with up to 33 distinct free symbols.
+    names: the pool also has elements of one or two custom sorts and symbols whose names collide
+    with sort names / need quotes (no value queries then: see finding custom-sort-value-unparsed)."""
     nb = rnd.choice([1, 2, 2, 3])
     pool = rnd.sample(["b0", "b1", "b2"], nb)
     extra = rnd.choice([[], ["v0"], ["i0"], ["v0"], ["i0"], ["v0", "v1"], ["i0", "i1"], ["v0", "i0"]])
@@ -537,6 +552,10 @@ def random_history(rnd, cls, wide=False):
         pool = pool[-4:]
     if wide:
         pool = rnd.sample(WIDE_POOL, rnd.randint(12, 20))
+    if names:
+        for sn in rnd.sample(SORTS, rnd.choice([1, 1, 2])):
+            pool = pool + SORT_ELEMS[sn] + ([sn] if sn in SYM_SORT and not is_usort(SYM_SORT[sn]) else [])
+        pool = list(dict.fromkeys(pool + [rnd.choice(ODD_SYMS)[0]]))
 
     def formula():
         if not wide:
@@ -556,7 +575,7 @@ def random_history(rnd, cls, wide=False):
     kinds = ["add"] * 5 + ["push"] * 3 + ["pop"] * 3 + ["solve"] * 3 + ["is_sat", "is_valid", "is_unsat"]
     if cls in ("reset", "mixed"):
         kinds += ["reset"] * 2
-    if cls in ("values", "mixed"):
+    if cls in ("values", "mixed") and not names:
         kinds += ["get_value"] * 3 + ["get_model"] * 2
     tries = 0
     while len(h) < n and tries < 200:
@@ -588,6 +607,8 @@ def random_history(rnd, cls, wide=False):
         ideal.step(call)
         h.append(call)
     # tail: value queries (legal in every class when the last check said sat)
+    if names:
+        return h
     if cls in ("fragment", "multi", "reset", "modeldepth", "values", "mixed", "valuefree"):
         if cls in ("fragment", "valuefree"):
             # get_model is proved complete only at depth 0 without a pending level; go there
@@ -707,6 +728,101 @@ def poplevels_history(rnd):
             if rnd.random() < 0.5 and ideal.live_syms():
                 do(("get_value", ("var", rnd.choice(sorted(ideal.live_syms())))))
             do(("get_model",))
+    return h
+
+
+def names_history(rnd):
+    """Name collisions across namespaces: a custom sort N and a symbol NAMED N (SMT-LIB keeps them
+    apart), a symbol named like its own sort, sorts named like theory functions / auxiliary let
+    names / needing quotes, symbols named Int, 0x, .def_k: both arrival orders, in one assertion or
+    several, at one level or across push / pop(n) / reset_assertions, first use popped before
+    the second arrives, re-use afterwards, small and large formulas."""
+    ideal = Ideal()
+    h = []
+
+    def do(call):
+        ideal.step(call)
+        h.append(call)
+
+    collide = [n for n in SORTS if n in SYM_SORT and not is_usort(SYM_SORT[n])]
+    kind = rnd.choice(["sort-vs-symbol"] * 6 + ["own-element", "odd-names", "two-sorts"])
+    if kind == "own-element":
+        sort_names, sym_names = ["e0"], ["e1"]
+    elif kind == "odd-names":
+        sort_names, sym_names = [rnd.choice(["and", ".def_0", "a b"])], [n for n, _ in rnd.sample(ODD_SYMS, 2)]
+    elif kind == "two-sorts":
+        sort_names = rnd.sample(collide, 2)
+        sym_names = list(sort_names)
+    else:
+        n = rnd.choice(collide)
+        sort_names, sym_names = [n], [n]
+
+    def sort_use(sn):
+        e = rnd.choice(SORT_ELEMS[sn])
+        return wide_literal(rnd, e, True)
+
+    def sym_use(x):
+        return wide_literal(rnd, x, True)
+
+    def widen(f):
+        if rnd.random() < 0.25:
+            return ("or", f, gen_wide(rnd, wide_names(rnd, pick_size(rnd))))
+        if rnd.random() < 0.3:
+            return ("and", f, gen_wide(rnd, rnd.sample(["b1", "b2", "v0", "i0"], rnd.choice([1, 2]))))
+        return f
+
+    uses = [("sort", sn) for sn in sort_names] + [("sym", x) for x in sym_names]
+    rnd.shuffle(uses)
+    if rnd.random() < 0.3:
+        do(("push", rnd.choice([1, 2])))
+    for k, (what, n) in enumerate(uses):
+        do(("add", widen(sort_use(n) if what == "sort" else sym_use(n))))
+        if k + 1 < len(uses):
+            between = rnd.choice([None, None, None, "push1", "push2", "pop-all", "pop1", "reset", "solve"])
+            if between == "push1":
+                do(("push", 1))
+            elif between == "push2":
+                do(("push", 2))
+            elif between == "pop-all" and ideal.depth() > 0:
+                do(("pop", ideal.depth()))
+            elif between == "pop1" and ideal.depth() > 0:
+                do(("pop", 1))
+            elif between == "reset":
+                do(("reset",))
+            elif between == "solve" and ideal.cheap():
+                do(("solve",))
+    after = rnd.choice([None, None, "pop1", "popn", "reset", "push", "solve"])
+    if after == "pop1" and ideal.depth() > 0:
+        do(("pop", 1))
+    elif after == "popn" and ideal.depth() > 0:
+        do(("pop", rnd.randint(1, ideal.depth())))
+    elif after == "reset":
+        do(("reset",))
+    elif after == "push":
+        do(("push", rnd.choice([1, 2])))
+    elif after == "solve" and ideal.cheap():
+        do(("solve",))
+    # both namespaces in ONE assertion, then each again on its own
+    both = _tree(rnd.choice(["and", "or"]), [sort_use(sn) for sn in sort_names] + [sym_use(x) for x in sym_names])
+    if rnd.random() < 0.8:
+        do(("add", widen(both)))
+    for what, n in rnd.sample(uses, rnd.choice([0, 1, len(uses)])):
+        do(("add", sort_use(n) if what == "sort" else sym_use(n)))
+    if ideal.cheap():
+        r = rnd.random()
+        if r < 0.4:
+            do(("solve",))
+        elif r < 0.6 and ideal.cheap([both]):
+            do(("is_sat", both))
+    return h
+
+
+def sortvalue_history(rnd):
+    """Value queries on a symbol of a custom sort (the reply is an abstract value (as @S_0 S))."""
+    sn = rnd.choice(SORTS)
+    e = SORT_ELEMS[sn]
+    h = [("add", rnd.choice([("ueq", ("var", e[0]), ("var", e[1])), ("not", ("ueq", ("var", e[0]), ("var", e[1])))])), ("solve",)]
+    h.append(rnd.choice([("get_value", ("var", e[0])), ("get_model",)]))
     return h
 
 
@@ -866,7 +982,7 @@ def run_history(h, logpath, mode="incremental"):
             fn = getattr(env.factory, name)
             r = fn(F, solver_name="smtref")
             if name == "get_model":
-                r = None if r is None else {str(kk): _value_of(vv) for kk, vv in r}
+                r = None if r is None else {kk.symbol_name(): _value_of(vv) for kk, vv in r}
             obs["results"].append(r)
         else:
             s = env.factory.get_solver(name="smtref", logic=pysmt.logics.QF_AUFBVLIRA)
@@ -877,7 +993,7 @@ def run_history(h, logpath, mode="incremental"):
                 if kind in ("add", "is_sat", "is_valid", "is_unsat"):
                     F = to_pysmt(call[1], mgr, types)
                     G = mgr.Not(F) if kind == "is_valid" else F
-                    fv = [str(x) for x in G.simplify().get_free_variables()]
+                    fv = [x.symbol_name() for x in G.simplify().get_free_variables()]
                     if kind == "add":
                         s.add_assertion(F)
                     else:
@@ -892,13 +1008,13 @@ def run_history(h, logpath, mode="incremental"):
                     s.reset_assertions()
                 elif kind == "get_value":
                     T = to_pysmt(call[1], mgr, types)
-                    fv = [str(x) for x in T.get_free_variables()]
+                    fv = [x.symbol_name() for x in T.get_free_variables()]
                     r = _value_of(s.get_value(T))
                 elif kind == "get_model":
                     m = s.get_model()
-                    r = {"assigned": {str(kk): _value_of(vv) for kk, vv in m},
-                         "completed": {n: _value_of(m.get_value(mgr.Symbol(n, types.BOOL if so == "Bool" else (types.INT if so == "Int" else types.BVType(BVW)))))
-                                       for n, so in POOL}}
+                    r = {"assigned": {kk.symbol_name(): _value_of(vv) for kk, vv in m},
+                         "completed": {n: _value_of(m.get_value(mgr.Symbol(n, pysmt_type(so, mgr, types))))
+                                       for n, so in POOL if not is_usort(so)}}
                 obs["fvs"].append(fv)
                 obs["results"].append(r)
     except Watchdog as ex:
@@ -915,9 +1031,9 @@ def run_history(h, logpath, mode="incremental"):
                 if call[0] in ("add", "is_sat", "is_valid", "is_unsat"):
                     F = to_pysmt(call[1], mgr, types)
                     G = mgr.Not(F) if call[0] == "is_valid" else F
-                    fv = [str(x) for x in G.simplify().get_free_variables()]
+                    fv = [x.symbol_name() for x in G.simplify().get_free_variables()]
                 elif call[0] == "get_value":
-                    fv = [str(x) for x in to_pysmt(call[1], mgr, types).get_free_variables()]
+                    fv = [x.symbol_name() for x in to_pysmt(call[1], mgr, types).get_free_variables()]
             except Exception:
                 pass
             obs["fvs"].append(fv)
@@ -1188,6 +1304,8 @@ def diagnose(h, obs, fails):
                                       a reset_assertions and not re-declared since;
       get-value-undeclared-symbol     get_value(t) where t mentions a symbol that no live (simplified)
                                       assertion mentions: it is sent undeclared, the solver rejects it;
+      custom-sort-value-unparsed      get_value / get_model on a symbol of an uninterpreted sort: the parser
+                                      rejects the abstract value (as @S_0 S) the solver reports;
       push-pop-n-records-one-level    unknown-symbol / already-declared error or IndexError after a
                                       push(n)/pop(n) with n != 1."""
     if not fails:
@@ -1242,6 +1360,11 @@ def diagnose(h, obs, fails):
         elif e["type"] == "UnknownSolverAnswerError" and e["msg"] in ("Solver returned: ''", "Solver returned: ") \
                 and e["prev_cmd"] == "get-value" and (e["prev_reply"] or "").startswith("(("):
             keys.append("desync-after-get-value")
+        elif e["type"] in ("PysmtSyntaxError", "AssertionError", "PysmtTypeError", "UndefinedSymbolError") \
+                and h[e["at"]][0] in ("get_value", "get_model") \
+                and e["last_cmd"] == "get-value" and (obs["log"][-1]["reply"] or "").startswith("((") \
+                and "(as " in (obs["log"][-1]["reply"] or ""):
+            keys.append("custom-sort-value-unparsed")
         elif e["type"] == "IndexError" and ideal.multi:
             keys.append("push-pop-n-records-one-level")
         else:
@@ -1260,6 +1383,14 @@ def coq_syms(names, keep_order=False):
     return "[" + "; ".join(str(SYM_ID[n]) for n in (names if keep_order else sorted(names))) + "]"
 
 
+def coq_annotated(names):
+    """[(sym, None); (sym, Some sort)] in the given order."""
+    def one(n):
+        so = SYM_SORT[n]
+        return "(%d, %s)" % (SYM_ID[n], "Some %d" % SORT_ID[so[2:]] if is_usort(so) else "None")
+    return "[" + "; ".join(one(n) for n in names) + "]"
+
+
 def coq_history(h, fvs):
     out = []
     for k, call in enumerate(h):
@@ -1267,7 +1398,7 @@ def coq_history(h, fvs):
         fv = fvs[k] if k < len(fvs) and fvs[k] is not None else None
         if kind in ("add", "is_sat", "is_valid", "is_unsat"):
             names = fv if fv is not None else sorted(syms(call[1]))
-            atom = "(FAtom %d %s)" % (k, coq_syms(names, keep_order=True))
+            atom = "(FAtom %d %s)" % (k, coq_annotated(names))
             # the free symbols were taken from the formula that is really asserted (Not f for
             # is_valid), so the model's FNot wrapper changes nothing
             out.append({"add": "AAdd", "is_sat": "AIsSat", "is_valid": "AIsValid", "is_unsat": "AIsUnsat"}[kind] + " " + atom)
@@ -1299,9 +1430,27 @@ def coq_commands(log):
         elif n == "set-logic":
             out.append("CSetLogic")
         elif n in ("declare-fun", "declare-const"):
-            out.append("CDeclare %d" % SYM_ID[names[0]])
+            try:
+                sx = smtref.read_all(e["cmd"])[0]
+                so = sx[3] if n == "declare-fun" else sx[2]
+            except Exception:
+                return None
+            if isinstance(so, list) or str(so) in ("Bool", "Int"):
+                out.append("CDeclare %d None" % SYM_ID[names[0]])
+            elif str(so) in SORT_ID:
+                out.append("CDeclare %d (Some %d)" % (SYM_ID[names[0]], SORT_ID[str(so)]))
+            else:
+                return None
+        elif n == "declare-sort":
+            try:
+                sx = smtref.read_all(e["cmd"])[0]
+            except Exception:
+                return None
+            if str(sx[1]) not in SORT_ID or str(sx[2]) != "0":
+                return None
+            out.append("CDeclareSort %d" % SORT_ID[str(sx[1])])
         elif n == "assert":
-            out.append("CAssert (FAtom 0 %s)" % coq_syms(names))
+            out.append("CAssert (FAtom 0 (plain %s))" % coq_syms(names))
         elif n == "push":
             out.append("CPush %d" % int(e["args"]))
         elif n == "pop":
@@ -1416,10 +1565,10 @@ def run(tier):
         jobs.append((h, "incremental"))
         tags.append("witness:" + name)
     enum = enumerated_histories(3 if tier == "quick" else 4)
-    if tier == "quick" and len(enum) > 600:
+    if tier == "quick" and len(enum) > 500:
         short = [h for h in enum if len(h) <= 2]
         long_ = [h for h in enum if len(h) > 2]
-        enum = short + rnd.sample(long_, 600 - len(short))
+        enum = short + rnd.sample(long_, 500 - len(short))
     for h in enum:
         jobs.append((h, "incremental"))
         tags.append("enum")
@@ -1429,10 +1578,14 @@ def run(tier):
         for _ in range(n):
             # every family sometimes draws from the large pool (formulas with 7..33 free symbols)
             wide = cls != "valuefree" and rnd.random() < 0.25
-            jobs.append((random_history(rnd, cls, wide=wide), "incremental"))
-            tags.append("random:" + cls + ("-wide" if wide else ""))
-    for fam, gen, n in (("poplevels", poplevels_history, 260 if tier == "quick" else 4000),
-                        ("widemodel", widemodel_history, 70 if tier == "quick" else 800)):
+            # ... and sometimes uses custom sorts and colliding / odd names
+            names = cls != "valuefree" and rnd.random() < 0.15
+            jobs.append((random_history(rnd, cls, wide=wide, names=names), "incremental"))
+            tags.append("random:" + cls + ("-wide" if wide else "") + ("-names" if names else ""))
+    for fam, gen, n in (("poplevels", poplevels_history, 200 if tier == "quick" else 4000),
+                        ("widemodel", widemodel_history, 60 if tier == "quick" else 800),
+                        ("names", names_history, 200 if tier == "quick" else 3000),
+                        ("sortvalue", sortvalue_history, 12 if tier == "quick" else 60)):
         for _ in range(n):
             jobs.append((gen(rnd), "incremental"))
             tags.append(fam)
@@ -1502,6 +1655,8 @@ def run(tier):
         obs = res[i]
         if obs["timeout"]:
             continue
+        if obs.get("key") and "custom-sort-value-unparsed" in obs["key"]:
+            continue    # reading abstract values of custom sorts is not modelled (open finding)
         cl = coq_commands(obs["log"])
         if cl is None:
             untranslatable.append(i)
@@ -1539,7 +1694,10 @@ def run(tier):
     # reported under its key; everything else is a violation with the (shrunk) history
     reported_keys = set()
     nrep = 0
-    for i, fails, key in sorted(pending_reports, key=lambda x: (len(jobs[x[0]][0]), x[0])):
+    def weight(x):      # simplest histories first: few symbols, then few calls
+        hh = jobs[x[0]][0]
+        return (sum(len(syms(c[1])) for c in hh if len(c) > 1 and isinstance(c[1], (tuple, list))), len(hh), x[0])
+    for i, fails, key in sorted(pending_reports, key=weight):
         h, mode = jobs[i]
         if i in corr_bad_idx:
             key = None
@@ -1622,7 +1780,7 @@ def shortcut_oracle(h, obs):
                 if e["name"] == "assert":
                     logged |= set(e["symbols"])
             missing = sorted(logged - set(envm))
-            full = {n: domain(so)[0] if so != "Int" else 0 for n, so in POOL}   # EagerModel's completion
+            full = {n: domain(so)[0] if so != "Int" else 0 for n, so in POOL if not is_usort(so)}   # EagerModel's completion
             full.update(envm)
             if missing or not holds(f, full):
                 fails.append({"kind": "model-incomplete", "missing": missing, "what": "model %r does not satisfy the formula" % (envm,)})
